@@ -55,6 +55,60 @@ def responder_origin(body, local, depth=8):
     return None
 
 
+def handed_back_origin(prog, co, local, depth=10):
+    """A value a private async helper was given and hands back (`let responder = interrupt_idle(state, responder).await?;`):
+    when `local` is the Ok payload of awaiting a helper whose every `Ok(x)` returns one and the same parameter x, the operand that
+    was passed for that parameter where the helper's future was created in `co` — else None."""
+    from ..inline import _ctor_call
+    cur = local
+    poll_local = None
+    for _ in range(depth):
+        defs = [s for bb, i, s in co.stmts() if s["k"] == "assign" and s["place"]["l"] == cur and not s["place"]["p"]]
+        cdefs = [t for bb, t in co.calls() if t.get("dest") is not None and t["dest"]["l"] == cur and not t["dest"]["p"]]
+        if len(defs) == 1 and not cdefs and defs[0]["rv"]["k"] == "use":
+            p = op_place(defs[0]["rv"]["op"])
+            if p is None:
+                return None
+            if any(isinstance(e, dict) and e.get("n") == "Ready" for e in p["p"]):
+                poll_local = p["l"]
+                break
+            cur = p["l"]
+            continue
+        if len(cdefs) == 1 and not defs and "core::ops::try_trait::Try::branch" in callee_names(cdefs[0]):
+            cur = op_local(cdefs[0]["args"][0])
+            if cur is None:
+                return None
+            continue
+        return None
+    if poll_local is None:
+        return None
+    polls = [t for bb, t in co.calls() if t.get("dest") is not None and t["dest"]["l"] == poll_local and "core::future::future::Future::poll" in callee_names(t)]
+    if len(polls) != 1:
+        return None
+    fut = op_local(polls[0]["args"][0])
+    for H in prog.bodies.values():
+        if not H.raw.get("coroutine") or H.crate != co.crate or H.id == co.id:
+            continue
+        hfn = prog.bodies.get(H.root)
+        if hfn is None or hfn.raw.get("pub") or hfn.raw.get("exported"):
+            continue
+        found = _ctor_call(prog, co.blocks, fut, H)
+        if found is None:
+            continue
+        ctor_bb, amap = found
+        ks = set()
+        for _, _, s3 in H.stmts():
+            if s3["k"] == "assign" and s3["rv"]["k"] == "agg" and s3["rv"].get("variant") == "Ok" and "oneshot::Sender" in H.local_ty(s3["place"]["l"]):
+                r = responder_origin(H, op_local(s3["rv"]["ops"][0]))
+                ks.add(r[2][0] if r is not None and r[0] == "item" and r[1] == 1 and len(r[2]) == 1 else None)
+        if len(ks) == 1 and None not in ks:
+            k = next(iter(ks))
+            if k < len(amap):
+                return op_local(co.blocks[ctor_bb]["t"]["args"][amap[k]])
+        return None
+    return None
+
+
 def run(rep, progs, tier):
     rep.explanation = (
         "Rule-based static analysis (no execution). (a) A4 (shared with C05): every request is written from wire state Q after "
@@ -121,7 +175,20 @@ def one(rep, prog, cfg):
                 stored = []
                 for bb2, i2, s2 in co.stmts():
                     if s2["k"] == "assign" and s2["rv"]["k"] == "agg" and s2["rv"].get("variant") == "WaitingForCommandReply" and bb2 in reach(g.succs, [bb]):
-                        stored.append(responder_origin(co, op_local(s2["rv"]["ops"][0])))
+                        rl = op_local(s2["rv"]["ops"][0])
+                        # through plain moves to the binding, then (if a helper handed the responder back) to what it was given
+                        cur = rl
+                        for _ in range(6):
+                            hb = handed_back_origin(prog, co, cur)
+                            if hb is not None:
+                                rl = hb
+                                break
+                            dd = [s5 for _, _, s5 in co.stmts() if s5["k"] == "assign" and s5["place"]["l"] == cur and not s5["place"]["p"]]
+                            if len(dd) == 1 and dd[0]["rv"]["k"] == "use" and op_local(dd[0]["rv"]["op"]) is not None and not (op_place(dd[0]["rv"]["op"]) or {}).get("p"):
+                                cur = op_local(dd[0]["rv"]["op"])
+                                continue
+                            break
+                        stored.append(responder_origin(co, rl))
                 ok = lo is not None and stored and all(r is not None and r[0] == "item" and r[1] == lo[0] and lo[1][:-1] == r[2][:-1]
                                                       and lo[1][-1] == 0 and r[2][-1] == 1 for r in stored)
                 if not ok and lo is not None and stored and lo[0] == 1 and len(lo[1]) == 1 and \
@@ -163,6 +230,30 @@ def one(rep, prog, cfg):
             if ONESEND in ns:
                 n_resp += 1
                 ro = responder_origin(co, op_local(t["args"][0]))
+                if ro is not None and ro[0] == "item" and ro[1] == 1 and len(ro[2]) == 1:
+                    # a parameter of a private async helper (an upvar of its coroutine): where the responder comes from is decided
+                    # at the helper's call sites — all of them must agree
+                    hfn = prog.bodies.get(co.root)
+                    if hfn is not None and hfn.id != co.id and not hfn.raw.get("pub") and not hfn.raw.get("exported"):
+                        pidx = {}
+                        for _, _, s3 in hfn.stmts():
+                            if s3["k"] == "assign" and s3["rv"]["k"] == "agg" and s3["rv"].get("def") == co.id:
+                                for ui, o in enumerate(s3["rv"]["ops"]):
+                                    if op_local(o) is not None:
+                                        pidx[ui] = op_local(o) - 1
+                        origins = set()
+                        if ro[2][0] in pidx:
+                            for f2 in res["fns"]:
+                                co2 = an.coroutine_of(f2)
+                                if co2 is None:
+                                    continue
+                                for bb4, t4 in co2.calls():
+                                    f4 = callee(t4)
+                                    if f4 is not None and (f4.get("inst") or f4["def"]) == hfn.id:
+                                        r2 = responder_origin(co2, op_local(t4["args"][pidx[ro[2][0]]]))
+                                        origins.add(r2[0] if r2 else None)
+                        if origins == {"state"}:
+                            ro = ("state",)
                 leaves, visited = fl.sources([op_local(t["args"][1])], through_call=identity_through, follow_mut=False)
                 # which awaited connection results flow into the value?
                 recv_sites = set()
